@@ -92,20 +92,25 @@ func start(cfg *config.Config) {
 		eventLogger = slog.New(slog.NewTextHandler(dailyEventLogger, nil))
 	}
 
-	// The recorder logs RTCM messages and runs until cfg.RecorderChannel
-	// is closed  The defer ensures that this happens as this function
-	// ends, which is does if and when the input is exhausted.  If the
-	// input is from a live GNSS device, the function will run until
+	// The recorder logs RTCM messages and runs until the recorder channel
+	// is closed, which happens below if and when the input is exhausted.
+	// If the input is from a live GNSS device, the function will run until
 	// the device stops sending or this process is killed.
 	recorderChannel := make(chan []byte)
-	defer close(recorderChannel)
+	recorderDone := make(chan struct{})
 	dailyRecorder := newLogWriter(cfg)
-	go recorder(recorderChannel, dailyRecorder, cfg)
+	go func() {
+		defer close(recorderDone)
+		recorder(recorderChannel, dailyRecorder, cfg)
+	}()
 
 	readAndWrite(recorderChannel, cfg)
 
-	// Done.  The defer above closes the recorder channel, which stops
-	// the recorder goroutine.
+	// Done.  Closing the recorder channel stops the recorder goroutine.  Wait
+	// for it to write out the last block before returning - the program exits
+	// as soon as this function returns.
+	close(recorderChannel)
+	<-recorderDone
 }
 
 // readAndWrite runs until the input is exhausted (which may never
